@@ -2304,8 +2304,9 @@ PROPS = {
         'run': run_C03,
         'pinned': ['C03_fast_in_call_safe_R', 'C03_fast_out_call_safe_R', 'C03_fast_in_run_safe_R', 'C03_fast_out_run_safe_R',
                    'C03_ctor_fast_in_R', 'C03_ctor_fast_out_R', 'C03_fast_window_R',
-                   'C03_sinc_in_call_safe_R', 'C03_sinc_in_run_safe_R', 'C03_ctor_sinc_in_R'],
-        'unproved': ['SincFixedOut and the three FFT types: safety is established by the bit-exact model on every sampled history, not by theorem',
+                   'C03_sinc_in_call_safe_R', 'C03_sinc_in_run_safe_R', 'C03_ctor_sinc_in_R',
+                   'C03_sinc_out_call_safe_R', 'C03_sinc_out_run_safe_R', 'C03_ctor_sinc_out_R'],
+        'unproved': ['the three FFT types: safety is established by the bit-exact model on every sampled history, not by theorem',
                      'ratio changes (ramped or stepped): outside the constant-ratio theorem; the executable envelope of tools/gens.py separates '
                      'histories expected to be safe from the recorded finding classes',
                      'floating-point rounding inside the loops (theorems are over R)'],
@@ -2315,7 +2316,8 @@ PROPS = {
     },
     'C04': {
         'run': run_C04,
-        'pinned': ['C04_fast_in_counts_R', 'C04_fast_out_counts_R', 'C04_fast_in_next_le_max_R', 'C04_sinc_in_next_le_max_R', 'C04_fast_out_next_le_max_R'],
+        'pinned': ['C04_fast_in_counts_R', 'C04_fast_out_counts_R', 'C04_fast_in_next_le_max_R', 'C04_sinc_in_next_le_max_R', 'C04_fast_out_next_le_max_R',
+                   'C04_sinc_in_counts_R', 'C04_sinc_out_counts_R'],
         'unproved': ['next <= max in binary64 (the inequalities are proved over R; the fix of D7 makes both sides the same association, '
                      'monotonicity of rounding is not formalised)', 'sinc and FFT types: counts by correspondence only',
                      'ratio changes outside the envelope'],
@@ -2337,8 +2339,8 @@ PROPS = {
     'C07': {
         'run': run_C07,
         'pinned': ['C07_fast_in_telescope_R', 'C07_fast_out_telescope_R', 'C07_fast_in_bound_R', 'C07_fast_out_bound_R',
-                   'C07_ctor_fast_in_R', 'C07_ctor_fast_out_R'],
-        'unproved': ['sinc and FFT types: by the bit-exact model and the balance predicate on every sampled stream, not by theorem',
+                   'C07_ctor_fast_in_R', 'C07_ctor_fast_out_R', 'C07_sinc_in_bound_R', 'C07_sinc_out_bound_R'],
+        'unproved': ['FFT types: by the bit-exact model and the balance predicate on every sampled stream, not by theorem',
                      'float drift of the carried position over very long streams'],
         'assumptions': ['ideal arithmetic'],
         'trusted_base': ['Reals axioms'],
